@@ -77,8 +77,11 @@ fn gen_tags(r: &mut Rng) -> Vec<String> {
 fn gen_rules(r: &mut Rng) -> Vec<String> {
     let mut v = vec![];
     let n = r.range(2, 8);
+    // a third of the lists are built around one shared pattern, so that rules of one category with
+    // different tags are neighbours in one bucket (and candidates for fusion when optimized)
+    let shared = if r.chance(1, 3) { Some(gen::pattern(r)) } else { None };
     for _ in 0..n {
-        let pat = gen::pattern(r);
+        let pat = match &shared { Some(p) if r.chance(3, 4) => p.clone(), _ => gen::pattern(r) };
         let tag = r.pick(gen::TAGS);
         v.push(match r.below(7) {
             0 => format!("{}$tag={}", pat, tag),
@@ -108,15 +111,18 @@ fn csp_spec(rules: &[NetworkFilter], tags: &HashSet<String>, req: &Request) -> O
     if rem.is_empty() { None } else { Some(rem) }
 }
 fn check_state(e: &Engine, rules: &[NetworkFilter], set: &BTreeSet<String>, req: &Request) -> Option<String> {
+    check_state_p(e, rules, set, req, false, false)
+}
+fn check_state_p(e: &Engine, rules: &[NetworkFilter], set: &BTreeSet<String>, req: &Request, mr: bool, fc: bool) -> Option<String> {
     for t in UNIVERSE {
         if e.tag_exists(t) != set.contains(*t) {
             return Some(format!("tag_exists({}) = {} but the set algebra says {}", t, e.tag_exists(t), set.contains(*t)));
         }
     }
     let hs: HashSet<String> = set.iter().cloned().collect();
-    let (got, want) = (engine_verdict(e, req), spec_verdict(rules, &hs, req));
+    let (got, want) = (engine_verdict_p(e, req, mr, fc), spec_verdict_p(rules, &hs, req, mr, fc));
     if got != want {
-        return Some(format!("verdict {:?} but rule-by-rule under tags {:?} gives {:?}", got, set, want));
+        return Some(format!("verdict {:?} (matched_rule={}, force_check_exceptions={}) but rule-by-rule under tags {:?} gives {:?}", got, mr, fc, set, want));
     }
     let gc = e.get_csp_directives(req).map(|s| s.split(',').map(|x| x.to_string()).collect::<BTreeSet<String>>());
     let wc = csp_spec(rules, &hs, req);
@@ -124,6 +130,16 @@ fn check_state(e: &Engine, rules: &[NetworkFilter], set: &BTreeSet<String>, req:
         return Some(format!("csp {:?} but rule-by-rule under tags {:?} gives {:?}", gc, set, wc));
     }
     None
+}
+
+/// A fused group whose RegexSet cannot be built is C05's known class (F27 was fixed; kept as a guard
+/// so that an uncompilable /regex/ rule does not make this check speak about optimisation).
+fn has_bad_regex(lines: &[String]) -> bool {
+    lines.iter().any(|l| {
+        let p = l.trim_start_matches("@@");
+        let p = p.split('$').next().unwrap_or("");
+        p.len() > 2 && p.starts_with('/') && p.ends_with('/') && regex::bytes::Regex::new(&p[1..p.len() - 1]).is_err()
+    })
 }
 
 fn main() {
@@ -136,12 +152,16 @@ fn main() {
         let rules: Vec<NetworkFilter> = lines.iter().filter_map(|l| parse_net(l)).collect();
         let req = Request::new(rp["url"].as_str().unwrap(), rp["source"].as_str().unwrap(), rp["type"].as_str().unwrap()).unwrap();
         let mut e = Engine::from_rules_parametrised(lines.iter(), Default::default(), true, false);
+        let mut eo = Engine::from_rules_parametrised(lines.iter(), Default::default(), true, true);
         let mut set = BTreeSet::new();
         for o in ops.iter() {
             apply(&mut e, &lines, o);
+            apply(&mut eo, &lines, o);
             set_apply(&mut set, o);
         }
-        match check_state(&e, &rules, &set, &req) {
+        let (mr, fc) = (rp["matched_rule"].as_bool().unwrap_or(false), rp["force_check_exceptions"].as_bool().unwrap_or(false));
+        let res = check_state_p(&e, &rules, &set, &req, mr, fc).or_else(|| if has_bad_regex(&lines) { None } else { check_state_p(&eo, &rules, &set, &req, mr, fc).map(|m| format!("optimized engine: {}", m)) });
+        match res {
             Some(m) => {
                 println!("{}\nVIOLATION property=C07 replay={}", m, p.display());
                 std::process::exit(1)
@@ -161,6 +181,10 @@ fn main() {
         let rules: Vec<NetworkFilter> = lines.iter().filter_map(|l| parse_net(l)).collect();
         let dumps: Vec<FilterDump> = rules.iter().map(dump_filter).collect();
         let mut e = Engine::from_rules_parametrised(lines.iter(), Default::default(), true, false);
+        // the same history on an engine built with optimisation on (the default of Engine::from_rules):
+        // fused rules must carry the right tag as well
+        let mut eo = Engine::from_rules_parametrised(lines.iter(), Default::default(), true, true);
+        let skip_opt = has_bad_regex(&lines);
         let mut set: BTreeSet<String> = BTreeSet::new();
         let nops = r.range(1, 8);
         let mut ops: Vec<Op> = vec![];
@@ -172,6 +196,7 @@ fn main() {
                 _ => Op::Reload,
             };
             apply(&mut e, &lines, &o);
+            apply(&mut eo, &lines, &o);
             set_apply(&mut set, &o);
             ops.push(o);
             // query after every operation
@@ -180,21 +205,29 @@ fn main() {
             let Ok(req) = Request::new(&url, &src, ty) else { continue };
             sm.oracle_evaluations += 1;
             let opsj: Vec<Value> = ops.iter().map(op_json).collect();
-            let desc = json!({"rules": lines, "ops": opsj, "url": url, "source": src, "type": ty});
-            if let Some(m) = check_state(&e, &rules, &set, &req) {
+            let (mr, fc) = if r.chance(1, 3) { (r.chance(1, 2), r.chance(1, 2)) } else { (false, false) };
+            let desc = json!({"rules": lines, "ops": opsj, "url": url, "source": src, "type": ty, "matched_rule": mr, "force_check_exceptions": fc});
+            if let Some(m) = check_state_p(&e, &rules, &set, &req, mr, fc) {
                 sm.failure(None, &m, desc.clone());
+            }
+            if !skip_opt {
+                sm.oracle_evaluations += 1;
+                if let Some(m) = check_state_p(&eo, &rules, &set, &req, mr, fc) {
+                    sm.failure(None, &format!("optimized engine: {}", m), desc.clone());
+                }
             }
             let matching: Vec<u64> = rules.iter().filter(|f| rule_matches(f, &req)).map(|f| f.id).collect();
             let tagged_hit = rules.iter().any(|f| adblock::verif_hooks::filter_tag(f).is_some() && rule_matches(f, &req));
-            let got = engine_verdict(&e, &req);
+            let got = engine_verdict_p(&e, &req, mr, fc);
+            if mr || fc { cs.stat("subset_query"); }
             let exists: Vec<bool> = UNIVERSE.iter().map(|t| e.tag_exists(t)).collect();
             let probes = clist(&req.get_tokens_for_match().copied().collect::<Vec<u64>>(), |x| cn(*x));
             cs.stat(match ops.last().unwrap() { Op::Use(_) => "use", Op::Enable(_) => "enable", Op::Disable(_) => "disable", Op::Reload => "reload" });
             cs.case(
                 format!(
-                    "let L := {} in let b := run_ops seahash L {} in list_eqb Bool.eqb (map (tag_exists b) {}) {} && verdict_eqb (blocker_check (fun f => memN (rid f) {}) {} b) (Build_verdict {} {} {} {})",
+                    "let L := {} in let b := run_ops seahash L {} in list_eqb Bool.eqb (map (tag_exists b) {}) {} && verdict_eqb (blocker_check_p (fun f => memN (rid f) {}) {} {} {} b) (Build_verdict {} {} {} {})",
                     coq_rules(&dumps), clist(&ops, op_coq), clist(UNIVERSE, |t| hxs(t)), clist(&exists, |b| cbool(*b).to_string()),
-                    clist(&matching, |x| cn(*x)), probes, cbool(got.matched), cbool(got.important), cbool(got.exception), cbool(got.filter)
+                    clist(&matching, |x| cn(*x)), probes, cbool(mr), cbool(fc), cbool(got.matched), cbool(got.important), cbool(got.exception), cbool(got.filter)
                 ),
                 desc,
                 tagged_hit,
